@@ -1,6 +1,7 @@
 /-
   Model of utils/httputil.Send: one `*http.Request` built once, then the retry loop
-  (`client.Do(req)`; retry on a transport error, on a retryable status that is not accepted,
+  (`client.Do(req)`; for an https request that failed and with the fallback enabled, one more
+  attempt over plain http; retry on a transport error, on a retryable status that is not accepted,
   on an explicit RetryCodes status; stop when the backoff says Stop).
 
   Modelled library behaviour (net/http, validated by the correspondence check):
@@ -11,9 +12,12 @@
   * an attempt whose known Content-Length does not match what the body yields fails inside the
     client before anything is put on the wire (`localErr`).
 
-  `rewinds = true` is the loop after the repair: before a retry the body is replaced through
-  `GetBody`, and a body without `GetBody` ends the loop.  `rewinds = false` is the loop as it
-  was (the same request is simply sent again).
+  `rewinds = true` is the code after the repairs: before a retry and before the http fallback
+  attempt the body is replaced through `GetBody`; a body without `GetBody` ends the retries and
+  gets no fallback attempt.  `plainReplays` is a choice left to the implementation: a reader
+  without `GetBody` may also be made replayable (buffered, re-opened, seeked back); the property
+  allows both, the correspondence check reads the choice off the implementation's behaviour.
+  `rewinds = false` is the loop as it was (the same drained reader is simply sent again).
 -/
 namespace KrakenModel.HttpSend
 
@@ -25,17 +29,24 @@ inductive BodyKind where
   | plain         -- any other io.Reader (file, LimitReader, store reader, …)
   deriving Repr, DecidableEq
 
-/-- what the server does with one request that reached it -/
+/-- what the server side does with one request -/
 inductive Outcome where
-  | net                   -- reads the request, then closes the connection without a response
+  | net                   -- reads the whole request, then closes the connection without a response
+  | netAfter (k : Nat)    -- reads the head and `k` body bytes, then closes the connection
+  | refuse                -- closes the connection before reading anything (TLS handshake included)
   | status (code : Nat)
   deriving Repr, DecidableEq
+
+def Outcome.isErr : Outcome → Bool
+  | .status _ => false
+  | _ => true
 
 structure Req where
   method : String
   url : String
   headers : List (String × String)
   body : List Byte
+  tls : Bool := false      -- https or http
   deriving Repr, DecidableEq
 
 structure Cfg where
@@ -44,7 +55,9 @@ structure Cfg where
   accepted : List Nat := [200]
   extra : List Nat := []      -- RetryCodes
   bo : Nat := 0               -- NextBackOff answers before Stop
+  fallback : Bool := false    -- EnableHTTPFallback (only matters for an https request)
   rewinds : Bool := true
+  plainReplays : Bool := false
   deriving Repr, DecidableEq
 
 /-- one `client.Do(req)` as seen from the network -/
@@ -62,12 +75,12 @@ inductive Result where
 def retryable (c : Nat) : Bool := c = 429 || c = 502 || c = 503 || c = 504
 
 def wantsRetry (cfg : Cfg) : Outcome → Bool
-  | .net => true
   | .status c => (retryable c && !cfg.accepted.contains c) || cfg.extra.contains c
+  | _ => true
 
 def final (cfg : Cfg) : Outcome → Result
-  | .net => .netErr
   | .status c => if cfg.accepted.contains c then .ok c else .statusErr c
+  | _ => .netErr
 
 /-- the request the caller asked for, as it should appear on the wire -/
 def original (cfg : Cfg) : Req :=
@@ -78,34 +91,54 @@ def original (cfg : Cfg) : Req :=
 /-- the body reader at the first attempt -/
 def initialBody (cfg : Cfg) : List Byte := (original cfg).body
 
-/-- net/http transport: what one attempt sends, given what the body reader still yields -/
-def transmit (cfg : Cfg) (remaining : List Byte) : Wire :=
+/-- net/http transport: what one attempt sends over https (`tls`) or http, given what the body
+reader still yields -/
+def transmit (cfg : Cfg) (tls : Bool) (remaining : List Byte) : Wire :=
   match cfg.kind with
-  | .none => .sent (original cfg)
+  | .none => .sent { original cfg with tls := tls }
   | .rewindable =>
-    if remaining.length = cfg.req.body.length then .sent { cfg.req with body := remaining } else .localErr
-  | .plain => .sent { cfg.req with body := remaining }
+    if remaining.length = cfg.req.body.length then .sent { cfg.req with body := remaining, tls := tls } else .localErr
+  | .plain => .sent { cfg.req with body := remaining, tls := tls }
 
-/-- the body reader for the next attempt; `none`: the loop must stop (body cannot be replayed) -/
+/-- the body reader for another attempt; `none`: there is no further attempt (the body cannot be
+replayed) -/
 def nextBody (cfg : Cfg) : Option (List Byte) :=
   if cfg.rewinds then
     match cfg.kind with
     | .none => some []
     | .rewindable => some cfg.req.body     -- req.GetBody()
-    | .plain => none
+    | .plain => if cfg.plainReplays then some cfg.req.body else none
   else some []                             -- same reader again: already drained
+
+/-- outcome of an attempt and the rest of the server script (an attempt that failed inside the
+client reaches no server) -/
+def outcomeOf (w : Wire) (script : List Outcome) : Outcome × List Outcome :=
+  match w with
+  | .localErr => (.net, script)
+  | .sent _ => (script.headD .net, script.tail)
+
+/-- one iteration of the loop: the attempt and, for a failed https attempt with the fallback
+enabled, the attempt over plain http -/
+def attempt (cfg : Cfg) (script : List Outcome) (remaining : List Byte) (acc : List Wire) :
+    Outcome × List Outcome × List Wire :=
+  let w := transmit cfg cfg.req.tls remaining
+  let (o, script1) := outcomeOf w script
+  let acc1 := acc ++ [w]
+  if o.isErr && cfg.req.tls && cfg.fallback then
+    match nextBody cfg with
+    | none => (o, script1, acc1)
+    | some rem =>
+      -- the code before the repair built the fallback request anew from the drained reader:
+      -- an empty body with Content-Length 0 goes out
+      let w2 := if cfg.rewinds then transmit cfg false rem else .sent { original cfg with body := [], tls := false }
+      let (o2, script2) := outcomeOf w2 script1
+      (o2, script2, acc1 ++ [w2])
+  else (o, script1, acc1)
 
 /-- the retry loop; `b` = backoff answers left -/
 def sendLoop (cfg : Cfg) : Nat → List Outcome → List Byte → List Wire → List Wire × Result
   | b, script, remaining, acc =>
-    let w := transmit cfg remaining
-    let o := match w with
-      | .localErr => Outcome.net
-      | .sent _ => script.headD .net
-    let script' := match w with
-      | .localErr => script
-      | .sent _ => script.tail
-    let acc' := acc ++ [w]
+    let (o, script', acc') := attempt cfg script remaining acc
     if wantsRetry cfg o then
       match nextBody cfg with
       | none => (acc', final cfg o)
